@@ -7,17 +7,55 @@ client-level window "broadcast passed the subscribed check, unsubscribe removed 
 is driven on a real node + client through natural gates.  Verdicts come from observable-only monitors on what the flush
 function / the transport received.
 
-Mutation testing (scratch worktrees /tmp/medium-*, `VERIF_REPO=... ./check C13|C38`): see MUTATIONS below.
+C38: Medium.tla (all option sets) exhaustively, MediumSim behaviours replayed on a real node with GetChannelMediumOptions
+(unexported options + clocks through the shim), real clients, cl.GateBroker controlling the wire; monitors on real frames.
+
+GENUINE DEFECT (C13, unchanged tree, every seed): signatures `race:pub-after-unsubscribe-reply:plain` and
+`race:pub-after-unsubscribe-reply:pos`.  Schedule (natural gates only): client subscribed, batching MaxDelay 40 ms;
+Node.Publish: the hub broadcast passes the connection's subscribed check and is parked in the application's LogHandler
+("-out->" trace entry, before writeEncodedPushData); client sends unsubscribe: c.channels entry deleted and
+perChannelWriter.delWriter(ch,false) under c.mu, the command then waits in hub.removeSub for the broadcast's shard RLock;
+broadcast released: perChannelWriter.Add -> getWriter re-creates the writer, arms the MaxDelay timer; unsubscribe reply
+written; 40 ms later the timer flushes: publication push AFTER the unsubscribe reply.  (Without batching the item is
+enqueued before the reply because the unsubscribe waits for the shard lock: the batching layer creates the violation.)
+Candidate repair (12 added lines, no hot-path change): spec/ChanWriter/fix-c13-delwriter.patch -- after
+node.removeSubscription returned (which waited for in-flight broadcasts) drop the channel writer once more unless the
+channel was subscribed again; regression test for the repository: spec/ChanWriter/fix-c13-regression_test.go.txt.
+With the patch `./check C13` exits 0 (264/264) and `go test -run 'Batch|ChannelWriter|PerChannel|Medium|Unsubscribe|Subscribe' .` passes.
+
+Observations outside the properties' quantifiers (evidence only, no verdict):
+ * evidence C13 coverage.cfg_change_probe: if GetChannelBatchConfig turns FlushLatestPublication off while a publication
+   waits in latestPubs, flushLocked takes `batch = w.buffer` and clears latestPubs: that publication is dropped.
+ * SharedPositionSync compares only the position of whichever connection reaches the medium first in a check period; a
+   subscriber with a stale position stays undetected (until the next publication) while a freshly subscribed one wins
+   (Medium.tla Tick, quick_p2.cfg).  A first subscriber arriving within the dissolver's 1 s replaces the medium object
+   without closing the old one (its queue writer goroutine stays; not modelled).
+
+Mutation testing (scratch worktrees /tmp/medium-m-*, `VERIF_REPO=<wt> ./check Cxx`; C13 mutations on HEAD + the repair
+above so that the baseline is exit 0):
+ C13  keep the OLDEST publication per key ............... exit 1  trace:latest:older-publication (+ replay after the monitor fix)
+      join/leave emitted after the publications ........ exit 1  latest:nonpub-after-pub
+      size flush drops the item that triggered it ...... exit 1  normal:skipped, lost-on-flush:*
+      delWriter(false) still flushes ................... exit 1  discard-flushed:delWriter
+      close(false) keeps buffer and armed timer ........ exit 1  flush-after-end, pub-after-unsubscribe-reply:* (client level)
+      Close(true) loses the last item .................. exit 1  lost-on-flush:Close / delWriter, latest:mismatch
+      coalesced publications alone do not arm the timer  exit 1  timer-flush-missing
+      duplicate key not removed from latestPubs ........ exit 1  latest:older-publication, trace:latest:two-per-key
+      timer identity check removed (`if true`) ......... exit 0  MISSED: needs the timer to expire while a size flush /
+                                                          close holds the writer lock and the goroutine to pick tm.C; the
+                                                          effect is a batch split early, which no C13 clause forbids
+ C38  delay coalescing broadcasts the older message after the newest  exit 1  order
+      positioned subscriber accepts a publication after a hole ...... exit 1  gap
+      CheckPosition result ignored (returns true, no sentinel) ...... exit 1  position-loss-not-ended
+      CheckPosition invalid: caller told, no sentinel broadcast ..... exit 1  position-loss-not-ended (second positioned subscriber)
+      MaxUint64 sentinel not filtered for plain subscribers ......... exit 1  sentinel-delivered
+      medium broadcasts twice with KeepLatestPublication ............ exit 1  duplicate
+      queue writer takes two messages and broadcasts the newer first  exit 1  order
 """
 import re
 from concurrent.futures import ThreadPoolExecutor
 
 from lib import tlaparse, vf
-
-MUTATIONS = """
-(filled in after the mutation runs)
-"""
-
 
 def _error_trace(out):
     """States of the counterexample TLC printed on stdout."""
